@@ -132,6 +132,24 @@ def run(ctx):
             ctx.check(all(pbk in f.reach_after(cb) and cb not in f.reach_after(pbk) for pbk in pb), "R15.3", "%s|push-after-clear" % f.name,
                       "the incoming access is stored after the hand-over/clear, so it is not wiped", f.where(cb))
 
+    # ---- R15.7 the buffer lock is never lent out inside a critical section ---------------------------------
+    # snapshot, hand-over, clear and push are one critical section of the buffer lock: a temporary release
+    # (Guard::unlocked / unlocked_fair / bump) in between lets another reader push into the buffer after the
+    # snapshot was taken and before the clear wipes it
+    lends = []
+    for name, f in F.fns.items():
+        for b, t in f.calls():
+            last = t["callee"].split("::")[-1]
+            if "Guard" in t["callee"] and last in ("unlocked", "unlocked_fair", "bump", "bump_exclusive", "bump_shared") and t["args"]:
+                pl = t["args"][0].get("place")
+                ty = f.locals[pl["l"]]["ty"] if pl else ""
+                if "Buffer<" in ty or "PB" in [c for c in f.guard_classes(pl["l"])] if pl else False:
+                    lends.append((f, b, last))
+    for f, b, last in lends:
+        ctx.bad("R15.7", "%s|buffer-lock-lent-out|%s" % (f.name, last),
+                "the access buffer's lock is released temporarily (%s) while a hand-over is in progress: accesses pushed in that window are wiped by the following clear" % last, f.where(b))
+    ctx.ok("R15.7", "buffer-lock-never-lent-out", "no Guard::unlocked/bump on an access-buffer guard anywhere in the crate (%d functions scanned)" % len(F.fns)) if not lends else None
+
     # ---- R15.4 hand-over accounting ------------------------------------------------------------------
     added = SM.bumps_of("AccessAdded")
     dropped = SM.bumps_of("AccessDropped")
